@@ -132,7 +132,7 @@ def gen_world(rng, tier="quick"):
         style = rng.pick(G.STYLE_NAMES)
         k = rng.randrange(12)
         if k == 0:
-            name, content = f"img{i}.png", "\x89PNG\r\n\x1a\n\x00\x00\x00\rIHDR\x00\x00" + "\udcff" * 8
+            name, content = f"img{i}.png", G.BINARY
         elif k == 1:
             name, content = f"data{i}" + rng.pick(G.UNKNOWN_EXT), gen_content(rng, "python")
         elif k == 2:
